@@ -10,6 +10,7 @@
 //     at its call site, for such a batch; afterwards the memtable holds its old entries and the batch;
 //   * KeyValueStore::log_and_apply (entire): the log batch holds exactly the batch's entries in order, and the memtable is
 //     written only after the log acknowledged it (write-ahead);
+//   * the flush thread's copy loop (region of _memtable_thread): the SST is given exactly the memtable's entries, in order;
 //   * MemTable::load: the newest version of the key not newer than the read timestamp, or its tombstone -- the contract
 //     unit lsmtk_load assumes of the memtable.
 // ASSUMED: the skiplist is an ordered map under Key's order (key ascending, timestamp descending): insert adds the pair,
@@ -430,6 +431,75 @@ impl KeyValueStore {
 //@ end
 }
 
-//@ min-verified 7
+
+// ---------------------------------------------------------------- the flush thread's copy loop: memtable -> SST
+// KeyValueStore::_memtable_thread, the region from `cursor.seek_to_first()?;` to the end of the `while let` loop: every
+// entry of the immutable memtable is handed to the SST builder, once, in order -- a flush loses and invents nothing.
+// The cursor here is the skiplist wrapper, whose seek_to_first lands ON the first entry (not before it, as the Cursor
+// contract says: DESIGN 4, C11 not_covered) -- the loop relies on exactly that, so the wrapper is a stub with that contract.
+// ASSUMED: SkipListIteratorWrapper as stated (skipfree is raw-pointer code: C17); SstBuilder::put / del append the entry
+// (unit sst_builder, C10).
+#[verifier::external_body]
+struct SkipWrap { _p: u8 }
+impl SkipWrap {
+    uninterp spec fn ents(&self) -> Seq<Ent>;
+    uninterp spec fn pos(&self) -> int;
+    #[verifier::external_body]
+    fn seek_to_first(&mut self) -> (r: Result<(), SError>) ensures final(self).ents() == old(self).ents(), r is Ok ==> final(self).pos() == 0 { unimplemented!() }
+    #[verifier::external_body]
+    fn next(&mut self) -> (r: Result<(), SError>)
+        requires 0 <= old(self).pos() < old(self).ents().len(),
+        ensures final(self).ents() == old(self).ents(), r is Ok ==> final(self).pos() == old(self).pos() + 1,
+    { unimplemented!() }
+    #[verifier::external_body]
+    fn key_value(&self) -> (r: Option<KeyValueRef<'_>>)
+        requires 0 <= self.pos() <= self.ents().len(),
+        ensures kvref_is(r, self.ents(), self.pos()),
+    { unimplemented!() }
+}
+#[verifier::external_body]
+struct FlushBuilder { _p: u8 }
+impl FlushBuilder {
+    uninterp spec fn out(&self) -> Seq<Ent>;
+    #[verifier::external_body]
+    fn put(&mut self, key: &[u8], timestamp: u64, value: &[u8]) -> (r: Result<(), SError>)
+        ensures r is Ok ==> final(self).out() == old(self).out().push(Ent { key: key@, ts: timestamp, val: Some(value@) }),
+    { unimplemented!() }
+    #[verifier::external_body]
+    fn del(&mut self, key: &[u8], timestamp: u64) -> (r: Result<(), SError>)
+        ensures r is Ok ==> final(self).out() == old(self).out().push(Ent { key: key@, ts: timestamp, val: None }),
+    { unimplemented!() }
+}
+//@ extract lsmtk/src/kvs/mod.rs | impl KeyValueStore :: fn _memtable_thread
+//@ region `cursor.seek_to_first()?;` .. `while let Some(kvr) = cursor.key_value() {`
+//@ region-sig <<
+fn flush_copy(cursor: &mut SkipWrap, builder: &mut FlushBuilder) -> (r: Result<(), SError>)
+//@ >>
+//@ region-tail <<
+    Ok(())
+//@ >>
+//@ post <<
+        r is Ok ==> final(builder).out() == old(builder).out() + old(cursor).ents(),
+//@ >>
+//@ bodystart <<
+    let ghost ee = cursor.ents();
+    let ghost out0 = builder.out();
+    proof { assert(out0 + ee.subrange(0, 0) =~= out0); }
+//@ >>
+//@ loop 0 <<
+                invariant cursor.ents() == ee, 0 <= cursor.pos() <= ee.len(),
+                    /* contract-inv */ builder.out() == out0 + ee.subrange(0, cursor.pos()),
+                ensures builder.out() == out0 + ee,
+                decreases ee.len() - cursor.pos(),
+//@ >>
+//@ startloop 0 <<
+                let ghost p = cursor.pos();
+//@ >>
+//@ endloop 0 <<
+                proof { assert((out0 + ee.subrange(0, p)).push(ee[p]) =~= out0 + ee.subrange(0, p + 1)); }
+//@ >>
+//@ end
+
+//@ min-verified 8
 } // verus!
 fn main() {}
